@@ -400,8 +400,9 @@ type Run struct {
 	h0  int64 // height of the EonStarted event (0: not yet)
 	eon uint64
 
-	sched         []string // schedule descriptor
-	plainSchedule bool     // use the plain fair schedule also for the DKG blocks
+	sched         []string      // schedule descriptor
+	plainSchedule bool          // use the plain fair schedule also for the DKG blocks
+	noLagUntil    map[int]int64 // position -> open height up to which Scenario.Lag is suspended (a restarted process polls at once)
 	// checkPersisted: after every main-loop iteration that ended without error
 	// compare the keyper's in-memory DKG state with the puredkg rows (C08)
 	checkPersisted  bool
@@ -420,7 +421,7 @@ func newRun(ctx context.Context, sc Scenario, ch chooser) (*Run, error) {
 	if err != nil {
 		return nil, err
 	}
-	r := &Run{ctx: ctx, sc: sc, ch: ch, nodes: map[int]*Node{}, byz: map[int]*byzActor{}, l1: l1Idle}
+	r := &Run{ctx: ctx, sc: sc, ch: ch, nodes: map[int]*Node{}, byz: map[int]*byzActor{}, l1: l1Idle, noLagUntil: map[int]int64{}}
 	var keyperStrs []string
 	for p := 0; p < sc.N; p++ {
 		r.addrs = append(r.addrs, uni.Addrs[sc.Order[p]])
@@ -710,7 +711,7 @@ func (r *Run) stalled(pos int, H int64) bool {
 	if r.h0 == 0 {
 		return false
 	}
-	if per := int64(r.sc.Lag[pos]); per > 1 && H > r.h0 && H <= r.h0+3*r.sc.L+4 {
+	if per := int64(r.sc.Lag[pos]); per > 1 && H > r.h0 && H <= r.h0+3*r.sc.L+4 && H > r.noLagUntil[pos] {
 		if (H-r.h0-int64(r.sc.LagOffset))%per != 0 {
 			return true
 		}
